@@ -110,6 +110,21 @@ def _special_worlds(rng, fixtures, thorough):
     for i, alias in enumerate(D.ALIASES):
         steps.append(["add", alias, D.gen_pairing(rng, ["IP", "BLE", "CoAP"][i % 3])])
     out.append({"lives": [steps + [["save"]], [["drop", D.ALIASES[0]], ["save"]]], "pairing_file": D.PAIRING_FILE})
+    # pairing files as older versions wrote them (no "Connection" field = IP), mixed with current entries of every
+    # transport; written here by an independent writer, loaded / re-saved / re-loaded by the real code
+    for kinds in (["IP0", "IP", "CoAP", "BLE"], ["BLE", "IP0", "CoAP", "IP0"], ["IP0"]):
+        aliases = rng.sample(D.ALIASES, len(kinds))
+        entries = []
+        for a, k in zip(aliases, kinds):
+            pd = D.gen_pairing(rng, "IP" if k == "IP0" else k)
+            if k == "IP0":
+                pd.pop("Connection", None)
+            elif k == "IP":
+                pd["Connection"] = "IP"
+            entries.append([a, k, pd])
+        doc = json.dumps({a: pd for a, _k, pd in entries}, ensure_ascii=False, indent=2).encode("utf-8")
+        out.append({"lives": [[["save"]], [["add", "later", D.gen_pairing(rng, "CoAP")], ["save"]]],
+                    "pairing_file": D.PAIRING_FILE, "init_files": {D.PAIRING_FILE: doc}, "expect_entries": entries})
     # the repository's fixtures, one world each
     for fx in fixtures if thorough else fixtures[::3]:
         t = rng.choice(["IP", "CoAP", "BLE"])
@@ -413,7 +428,8 @@ def _check_worlds(ctx, tmp, pool, worlds, flags, label):
     outright = {}
     for wi, res in enumerate(results):
         w = res["world"]
-        scen = {"init_files": w.get("init_files") or {}, "lives": w["lives"], "pairing_file": w["pairing_file"]}
+        scen = {"init_files": w.get("init_files") or {}, "lives": w["lives"], "pairing_file": w["pairing_file"],
+                "expect_entries": w.get("expect_entries")}
         if res["broken"] is not None:
             b = res["broken"]
             outright.setdefault(("start", b["stage"], b["exc"].split(":")[0]), []).append(
@@ -422,11 +438,30 @@ def _check_worlds(ctx, tmp, pool, worlds, flags, label):
                  {"kind": "broken", "files": b["files"], "pairing_file": w["pairing_file"], "scenario": scen}))
         if res["failed_save"] is not None:
             b = res["failed_save"]
-            outright.setdefault(("save", b["kind"], b["exc"].split(":")[0]), []).append(
-                (f"RoundTrip ({label}): a save of the {b['kind']} file raised {b['exc']} for a well-formed input "
-                 f"(step {_steps_brief([b['step']])[0]})",
+            act = (f"a save of the {b['kind']} file" if b["kind"] != "step" else
+                   {"add": "Controller.load_pairing"}.get(b["step"][0], f"the step '{b['step'][0]}'"))
+            outright.setdefault(("save", b["kind"], b["step"][0], b["exc"].split(":")[0]), []).append(
+                (f"RoundTrip ({label}): {act} raised {b['exc']} for a well-formed input "
+                 f"(step {str(_steps_brief([b['step']])[0])[:400]})",
                  {"kind": "failed_save", "files_before": b["files"], "step": b["step"],
                   "pairing_file": w["pairing_file"], "scenario": scen}))
+        if w.get("expect_entries"):
+            # a pairing file written by an older version (read here by the harness): every entry must be loaded
+            # by every start-up of the chain - the first load, and the loads after each re-save
+            entries = [(a, k, pd) for a, k, pd in w["expect_entries"]]
+            starts = [lf[0]["start"] for lf in res["lives"]] + ([res["final"]] if res["final"] else [])
+            for n_start, st in enumerate(starts):
+                if st["exc"] is not None:
+                    continue
+                bad = D.entry_problems(entries, range(1, len(entries) + 1), st["pair"])
+                if bad:
+                    outright.setdefault(("legacy", n_start > 0), []).append(
+                        (f"RoundTrip ({label}): pairing file with entries {[k for _, k, _ in entries]} (legacy IP entries have no "
+                         f"Connection field), every transport available, start-up #{n_start + 1} of the chain load -> save -> "
+                         f"restart: " + "; ".join(bad),
+                         {"kind": "legacy_file", "files": w["init_files"], "pairing_file": w["pairing_file"],
+                          "scenario": scen, "start": n_start + 1}))
+                    break
         every_p, every_c, junk = flags(wi)
         p, c = _records_of_world(res, random.Random(ctx.seed * 1000 + wi), every_p, every_c, junk)
         P += p
@@ -604,7 +639,7 @@ def _replay(ctx, tmp, pool):
     if not scen:
         raise MachineryError("replay file without a scenario (a violation of the design-level model? re-run ./check C20)")
     w = {"idx": "replay", "init_files": {n: _unhex(b) for n, b in scen["init_files"].items()},
-         "lives": scen["lives"], "pairing_file": scen["pairing_file"]}
+         "lives": scen["lives"], "pairing_file": scen["pairing_file"], "expect_entries": scen.get("expect_entries")}
     print(f"replaying: {data['what'][:300]}")
     _res, P, C = _check_worlds(ctx, tmp, pool, [w], lambda wi: (True, True, True), "replay")
     batches = [_Batch(ctx, tmp, pool, "pairings", P, "replay").run(), _Batch(ctx, tmp, pool, "cache", C, "replay").run()]
